@@ -355,16 +355,16 @@ Fixpoint image_labels (sch : label_scheme) (base : string) (n : nat) (k : nat) (
       let '(ls, tk) := image_labels sch base n' k' (lab :: taken) in (lab :: ls, tk)
   end.
 
-Definition expand_site (G : list symop) (au : ratom * gmat T) (taken : list string) : list oatom * list string :=
+Definition expand_site (sch : label_scheme) (G : list symop) (au : ratom * gmat T) (taken : list string) : list oatom * list string :=
   let '(a, u) := au in
   let '(pos, opss, m) := expand_exact D G v0 (grid_of (a_xyz a)) in
-  let '(labs, taken') := image_labels the_label_scheme (a_label a) (Nat.pred m) 1 taken in
+  let '(labs, taken') := image_labels sch (a_label a) (Nat.pred m) 1 taken in
   (map (fun t => image a u (fst (fst t)) (snd (fst t)) (snd t)) (combine (combine (a_label a :: labs) pos) opss), taken').
 
-Fixpoint expand_all (G : list symop) (l : list (ratom * gmat T)) (taken : list string) : list oatom :=
+Fixpoint expand_all (sch : label_scheme) (G : list symop) (l : list (ratom * gmat T)) (taken : list string) : list oatom :=
   match l with
   | [] => []
-  | au :: r => let '(o, tk) := expand_site G au taken in o ++ expand_all G r tk
+  | au :: r => let '(o, tk) := expand_site sch G au taken in o ++ expand_all sch G r tk
   end.
 
 (* the asymmetric unit as P_cif.asymmetric_unit keeps it: atoms after both loops, anisotropy settled *)
@@ -381,7 +381,7 @@ Definition read_typed (cell : list (option string)) (site : tloop) (aniso : opti
   bind (resolve_sg b) (fun sg =>
     let G := snd sg in
     let ps := parents G st in
-    Ok (Result (expand_all G ps (map (fun au => a_label (fst au)) ps)) (fst sg) G cn ps))))).
+    Ok (Result (expand_all the_label_scheme G ps (map (fun au => a_label (fst au)) ps)) (fst sg) G cn ps))))).
 
 Definition read_cif (b : block) : res result :=
   read_typed (b_cell b) (type_loop (b_site b)) (option_map type_loop (b_aniso b)) b.
